@@ -1324,6 +1324,34 @@ func twoShardLeafCase(r *hx.Rand, run *hx.Run, xs []uint64) []string {
 	return script
 }
 
+// shrinkTokens drops digests / hashes from the list-carrying lines of an already line-minimal
+// script while it keeps failing (hx.Shrink works on whole lines only).
+func shrinkTokens(script []string, fails func([]string) bool) []string {
+	cur := append([]string{}, script...)
+	for i := range cur {
+		w := strings.Fields(cur[i])
+		keep := 0
+		switch {
+		case len(w) > 0 && (w[0] == "fm" || w[0] == "sel" || w[0] == "#perm" || w[0] == "#remove"):
+			keep = 1
+		case len(w) > 0 && (w[0] == "fmans" || w[0] == "#add"):
+			keep = 3
+		default:
+			continue
+		}
+		for j := len(w) - 1; j >= keep; j-- {
+			cand := append(append([]string{}, w[:j]...), w[j+1:]...)
+			trial := append([]string{}, cur...)
+			trial[i] = strings.Join(cand, " ")
+			if fails(trial) {
+				w = cand
+				cur = trial
+			}
+		}
+	}
+	return cur
+}
+
 // ---------------------------------------------------------------- the test
 
 func TestC12(t *testing.T) {
@@ -1360,7 +1388,14 @@ func TestC12(t *testing.T) {
 				}
 				return !a
 			})
-			if len(small) < len(script) {
+			small = shrinkTokens(small, func(s []string) bool {
+				w, a, _ := runCase(run, model, name, s, permLimit, false)
+				if what != "" {
+					return w == what
+				}
+				return !a
+			})
+			if strings.Join(small, "\n") != strings.Join(script, "\n") {
 				if _, _, f2 := runCase(run, model, name+"/shrunk", small, permLimit, false); len(f2) > 0 {
 					found = f2
 				}
